@@ -69,11 +69,14 @@ impl StoreT {
     { unimplemented!() }
     #[verifier::external_body]
     pub fn entry_estimated_size(&self, key: &u64, value: &u64) -> usize { unimplemented!() }
+    pub fn clone(&self) -> StoreRefT { StoreRefT { } }
+    pub fn spawner(&self) -> SpawnerT { SpawnerT { } }
 }
 pub struct MemT { pub flushes: Ghost<nat>, pub policy_piped: bool }
 impl MemT {
     #[verifier::external_body]
     pub fn usage(&self) -> usize { unimplemented!() }
+    pub fn clone(&self) -> MemRefT { MemRefT { } }
     #[verifier::external_body]
     pub fn flush(&mut self) ensures final(self).flushes@ == old(self).flushes@ + 1, { }
     /// memory insert without properties: default placement advice, source = Outer (RawCache::insert -> Default::default())
@@ -92,6 +95,25 @@ impl FlagT {
     pub fn fetch_or(&mut self, val: bool, o: Ordering) -> (r: bool) ensures r == old(self).v, final(self).v == (old(self).v || val) { unimplemented!() }
     #[verifier::external_body]
     pub fn load(&self, o: Ordering) -> (r: bool) ensures r == self.v { unimplemented!() }
+    #[verifier::external_body]
+    pub fn store(&mut self, val: bool, o: Ordering) ensures final(self).v == val { unimplemented!() }
+    #[verifier::external_body]
+    pub fn swap(&mut self, val: bool, o: Ordering) -> (r: bool) ensures r == old(self).v, final(self).v == val { unimplemented!() }
+    #[verifier::external_body]
+    pub fn fetch_and(&mut self, val: bool, o: Ordering) -> (r: bool) ensures r == old(self).v, final(self).v == (old(self).v && val) { unimplemented!() }
+    /// Arc::clone of the shared flag: a second handle on the SAME flag (see `inner_drop`)
+    pub fn clone(&self) -> FlagRefT { FlagRefT { } }
+}
+pub struct FlagRefT { }
+pub struct MemRefT { }
+pub struct StoreRefT { }
+pub struct NameT { }
+impl NameT { pub fn clone(&self) -> NameT { NameT { } } }
+pub struct SpawnerT { }
+impl SpawnerT {
+    /// the runtime is trusted to run a spawned task to completion; with rule de-async the task body is evaluated in
+    /// place (eagerly) and its value handed to `spawn`
+    pub fn spawn<T>(&self, task: T) { }
 }
 pub struct Instant { pub t: u64 }
 pub struct Duration { pub d: u64 }
@@ -222,6 +244,26 @@ fn close_inner(closed: &mut FlagT, memory: &mut MemT, storage: &mut StoreT, flus
 //@tail
     Ok(())
 //@end
+
+// C15: the last copy dropped WITHOUT an explicit close: Drop for Inner spawns the same close_inner on clones of the shared
+// flag / memory / store. Arc clones denote the same objects, so the extracted call is rewritten (sub) to borrow the
+// fields the clones alias; the callee seen here is the contract of `close_inner` above, not its body.
+pub struct DropInnerT { pub name: NameT, pub closed: FlagT, pub memory: MemT, pub storage: StoreT, pub flush_on_close: bool }
+impl DropInnerT {
+//@region foyer/src/hybrid/cache.rs :: impl~^impl<K, V, S> Drop for Inner<K, V, S>/fn drop name=inner_drop whole=1 rules=drop-tracing,de-async sub=@Self::close_inner\((\w+), (\w+), (\w+), ([^()]*)\)@close_inner(verif_same(\1, &mut self.closed), verif_same_mem(\2, &mut self.memory), verif_same_store(\3, &mut self.storage), \4)@
+//@head
+    fn inner_drop(&mut self)
+        ensures
+            final(self).closed.v, // @label closed_after_last_drop
+            !old(self).closed.v && old(self).flush_on_close ==> final(self).memory.flushes@ == old(self).memory.flushes@ + 1, // @label drop_without_close_flushes_memory_when_flush_on_close
+            !old(self).closed.v ==> final(self).storage.closes@ == old(self).storage.closes@ + 1, // @label drop_without_close_closes_the_store
+            old(self).closed.v ==> final(self).memory.flushes@ == old(self).memory.flushes@ && final(self).storage.closes@ == old(self).storage.closes@, // @label drop_after_close_has_no_further_effects
+            final(self).storage.enqueued@ == old(self).storage.enqueued@,
+//@end
+}
+pub fn verif_same<'a>(h: FlagRefT, t: &'a mut FlagT) -> (r: &'a mut FlagT) ensures *r == *old(t), *final(r) == *final(t) { t }
+pub fn verif_same_mem<'a>(h: MemRefT, t: &'a mut MemT) -> (r: &'a mut MemT) ensures *r == *old(t), *final(r) == *final(t) { t }
+pub fn verif_same_store<'a>(h: StoreRefT, t: &'a mut StoreT) -> (r: &'a mut StoreT) ensures *r == *old(t), *final(r) == *final(t) { t }
 
 // =====================================================================================================
 // C12: pipe installed only for write-on-eviction over a real store
